@@ -205,6 +205,8 @@ def handle_refuted(pid, pm, refuted, seed, lock):
                 if s.get('ok') and s['result'].get('reproduced'):
                     native = s
                     reproduced = True
+                elif native is None:
+                    native = dict(sweep=s)
         fn = os.path.join(outdir, '%s-%02d-%s.json' % (pid, n, re.sub(r'[^A-Za-z0-9_.-]+', '_', key)[:120]))
         with open(fn, 'w') as fh:
             json.dump(dict(property=pid, obligation=key, function=rec['fuc'], line=rec['line'], contract_clause=rec['note'],
